@@ -66,6 +66,8 @@ class PosClassifier:
         if depth < 0:
             return False
         s = src(it)
+        if isinstance(it, (ast.ListComp, ast.GeneratorExp)) and self.in_grid_list(it, depth - 1):
+            return True
         if isinstance(it, ast.Call) and isinstance(it.func, ast.Attribute) \
                 and it.func.attr == 'positions' and src(it.func.value).endswith('.area') \
                 and is_grid_expr(it.func.value.value, self.grid_names):
@@ -92,8 +94,32 @@ class PosClassifier:
             return src(a).endswith('.area') and is_grid_expr(a.value, self.grid_names)
         return False
 
+    def stream_in_grid(self, e: ast.AST) -> bool:
+        """second reading through the stream normal form (cellstream.py): every position of a
+        grid, however the scan is spelled, or neighbours filtered by `area.contains`"""
+        from .cellstream import StreamReader
+        if getattr(self, '_reader', None) is None:
+            self._reader = StreamReader(getattr(self, 'index', None), self.f.module, self.w)
+        try:
+            st = self._reader.read(e)
+        except Exception:       # noqa: BLE001 - the reader is only a second opinion here
+            return False
+        if st is None or not st.grid:
+            return False
+        try:
+            g = ast.parse(st.grid, mode='eval').body
+        except SyntaxError:
+            return False
+        if not is_grid_expr(g, self.grid_names):
+            return False
+        if st.kind == 'cells':
+            return True
+        return any(src(c) == f'{st.grid}.area.contains(P)' for c in st.filters)
+
     def in_grid_list(self, e: ast.AST, depth: int) -> bool:
         """a list/generator expression all of whose elements are in-grid positions"""
+        if self.stream_in_grid(e):
+            return True
         if isinstance(e, (ast.ListComp, ast.GeneratorExp)) and len(e.generators) == 1:
             g = e.generators[0]
             if isinstance(g.target, ast.Name) and src(e.elt) == g.target.id:
@@ -243,6 +269,7 @@ def check_function(index: RepoIndex, rep, rule: str, f: Func, ev: Evaluator,
     w = walk_function(node)
     gn = grid_names_of(node, w)
     pc = PosClassifier(f, w, gn)
+    pc.index = index
     fname = qual or f.short
     sinks = 0
     m = None
